@@ -1,7 +1,13 @@
-(* C16 — standard shapes and transforms have their documented geometry. *)
-From Coq Require Import List.
-From FV Require Import Ops Expr Shapes.
+(* C16 — standard shapes and transforms have their documented geometry.
+   The builders of theories/Shapes.v are generic in the scalar type: the f32 instance is what
+   the correspondence check runs against `Tree::from(shape)`; the theorems below are about the
+   same builders at the reals (proofs in theories/ShapesSound.v).  [den s p] is the value of
+   the tree s at the point p; a point is inside when the value is negative. *)
+From Coq Require Import Reals List.
+From FV Require Import Ops Expr Shapes Affine ShapesSound.
 From FVGen Require Import ShapesGen.
+Import ListNotations.
+Local Open Scope R_scope.
 
 (* Named planes denote the planes their names say (regenerated from types.rs on every run):
    the XY plane is orthogonal to Z, YZ to X, ZX to Y; RevolveY measures the radius in XZ. *)
@@ -9,3 +15,230 @@ Theorem C16_named_planes_and_revolve_axis :
   gen_plane_xy_axis = AZ /\ gen_plane_yz_axis = AX /\ gen_plane_zx_axis = AY /\ gen_revolve_other = AZ.
 Proof. repeat split; reflexivity. Qed.
 Print Assumptions C16_named_planes_and_revolve_axis.
+
+Theorem C16_circle_inside :
+  forall (cx cy r : R) (p : pt),
+       0 <= r -> den (circle cx cy r) p < 0 <-> (px p - cx) ^ 2 + (py p - cy) ^ 2 < r ^ 2.
+Proof. exact (@circle_inside). Qed.
+Print Assumptions C16_circle_inside.
+
+Theorem C16_sphere_inside :
+  forall (c : vec) (r : R) (p : pt),
+       0 <= r ->
+       den (sphere c r) p < 0 <-> (px p - vx c) ^ 2 + (py p - vy c) ^ 2 + (pz p - vz c) ^ 2 < r ^ 2.
+Proof. exact (@sphere_inside). Qed.
+Print Assumptions C16_sphere_inside.
+
+Theorem C16_circle_nonpos_radius_empty :
+  forall (cx cy r : R) (p : pt), r <= 0 -> ~ den (circle cx cy r) p < 0.
+Proof. exact (@circle_nonpos_radius_empty). Qed.
+Print Assumptions C16_circle_nonpos_radius_empty.
+
+Theorem C16_rectangle_inside :
+  forall (lx ly ux uy : R) (p : pt),
+       den (rectangle lx ly ux uy) p < 0 <-> lx < px p < ux /\ ly < py p < uy.
+Proof. exact (@rectangle_inside). Qed.
+Print Assumptions C16_rectangle_inside.
+
+Theorem C16_box_inside :
+  forall (lo hi : vec) (p : pt),
+       den (box lo hi) p < 0 <->
+       vx lo < px p < vx hi /\ vy lo < py p < vy hi /\ vz lo < pz p < vz hi.
+Proof. exact (@box_inside). Qed.
+Print Assumptions C16_box_inside.
+
+Theorem C16_plane_inside :
+  forall (a : vec) (off : R) (p : pt), den (plane a off) p < 0 <-> dot a p < off.
+Proof. exact (@plane_inside). Qed.
+Print Assumptions C16_plane_inside.
+
+Theorem C16_union_inside :
+  forall (inf : R) (s : list shape) (p : pt),
+       s <> [] -> den (union inf s) p < 0 <-> (exists t : shape, In t s /\ den t p < 0).
+Proof. exact (@union_inside). Qed.
+Print Assumptions C16_union_inside.
+
+Theorem C16_intersection_inside :
+  forall (ninf : R) (s : list shape) (p : pt),
+       s <> [] -> den (intersection ninf s) p < 0 <-> (forall t : shape, In t s -> den t p < 0).
+Proof. exact (@intersection_inside). Qed.
+Print Assumptions C16_intersection_inside.
+
+Theorem C16_inverse_inside :
+  forall (s : shape) (p : pt), den (inverse s) p < 0 <-> 0 < den s p.
+Proof. exact (@inverse_inside). Qed.
+Print Assumptions C16_inverse_inside.
+
+Theorem C16_difference_inside :
+  forall (s c : shape) (p : pt), den (difference s c) p < 0 <-> den s p < 0 < den c p.
+Proof. exact (@difference_inside). Qed.
+Print Assumptions C16_difference_inside.
+
+Theorem C16_blend_zero :
+  forall (inf : R) (a b : shape) (p : pt), den (rblend a b 0) p = den (union inf [a; b]) p.
+Proof. exact (@blend_zero). Qed.
+Print Assumptions C16_blend_zero.
+
+Theorem C16_blend_contains_union :
+  forall (a b : shape) (r : R) (p : pt),
+       0 < r -> den (rblend a b r) p <= Rmin (den a p) (den b p).
+Proof. exact (@blend_contains_union). Qed.
+Print Assumptions C16_blend_contains_union.
+
+Theorem C16_den_remap_affine :
+  forall (s : shape) (m : list R) (p : pt),
+       den (remap_affine r_sc s m) p = den s (mat_apply m p).
+Proof. exact (@den_remap_affine). Qed.
+Print Assumptions C16_den_remap_affine.
+
+Theorem C16_move_sound :
+  forall (s : shape) (off : vec) (p : pt), den (move r_sc s off) p = den s (psub p (v2p off)).
+Proof. exact (@move_sound). Qed.
+Print Assumptions C16_move_sound.
+
+Theorem C16_scale_image :
+  forall (s : shape) (k : vec) (q : pt),
+       vx k <> 0 ->
+       vy k <> 0 ->
+       vz k <> 0 -> den (scale r_sc s k) (vx k * px q, vy k * py q, vz k * pz q) = den s q.
+Proof. exact (@scale_image). Qed.
+Print Assumptions C16_scale_image.
+
+Theorem C16_scale_uniform_image :
+  forall (s : shape) (k : R) (q : pt),
+       k <> 0 -> den (scale_uniform r_sc s k) (pscale k q) = den s q.
+Proof. exact (@scale_uniform_image). Qed.
+Print Assumptions C16_scale_uniform_image.
+
+Theorem C16_rotate_sound :
+  forall (s : shape) (rot : list R) (c : vec) (p : pt),
+       den (rotate r_sc s rot c) p = den s (padd (v2p c) (mat3_apply rot (psub p (v2p c)))).
+Proof. exact (@rotate_sound). Qed.
+Print Assumptions C16_rotate_sound.
+
+Theorem C16_rodrigues_inv :
+  forall (a : vec) (th : R) (q : pt),
+       vdot a a = 1 -> mat3_apply (rodrigues a (- th)) (mat3_apply (rodrigues a th) q) = q.
+Proof. exact (@rodrigues_inv). Qed.
+Print Assumptions C16_rodrigues_inv.
+
+Theorem C16_rodrigues_isometry :
+  forall (a : vec) (th : R) (q r : pt),
+       vdot a a = 1 ->
+       pdot (mat3_apply (rodrigues a th) q) (mat3_apply (rodrigues a th) r) = pdot q r.
+Proof. exact (@rodrigues_isometry). Qed.
+Print Assumptions C16_rodrigues_isometry.
+
+Theorem C16_rotate_rodrigues :
+  forall (s : shape) (a : vec) (th : R) (c : vec) (q : pt),
+       vdot a a = 1 ->
+       den (rotate r_sc s (rodrigues a (- th)) c) (padd (v2p c) (mat3_apply (rodrigues a th) q)) =
+       den s (padd (v2p c) q).
+Proof. exact (@rotate_rodrigues). Qed.
+Print Assumptions C16_rotate_rodrigues.
+
+Theorem C16_reflect_sound :
+  forall (s : shape) (a : vec) (off : R) (p : pt),
+       den (rreflect s a off) p = den s (reflect_pt a off p).
+Proof. exact (@reflect_sound). Qed.
+Print Assumptions C16_reflect_sound.
+
+Theorem C16_reflect_image :
+  forall (s : shape) (a : vec) (off : R) (q : pt),
+       vdot a a = 1 -> den (rreflect s a off) (reflect_pt a off q) = den s q.
+Proof. exact (@reflect_image). Qed.
+Print Assumptions C16_reflect_image.
+
+Theorem C16_reflect_xy_sound :
+  forall (s : shape) (off : R) (p : pt),
+       den (reflect_xy r_sc sqrt 2 s off) p =
+       den s (py p - sqrt 2 * off, px p + sqrt 2 * off, pz p).
+Proof. exact (@reflect_xy_sound). Qed.
+Print Assumptions C16_reflect_xy_sound.
+
+Theorem C16_repeat_x_periodic :
+  forall (s : shape) (radius off : R) (p : pt),
+       0 < radius ->
+       den (rrepeat_x s radius off) (px p + 2 * radius, py p, pz p) =
+       den (rrepeat_x s radius off) p.
+Proof. exact (@repeat_x_periodic). Qed.
+Print Assumptions C16_repeat_x_periodic.
+
+Theorem C16_repeat_x_cell :
+  forall (s : shape) (radius off : R) (p : pt),
+       - (radius - off) <= px p < 2 * radius - (radius - off) ->
+       den (rrepeat_x s radius off) p = den s p.
+Proof. exact (@repeat_x_cell). Qed.
+Print Assumptions C16_repeat_x_cell.
+
+Theorem C16_repeat_x_fold :
+  forall (s : shape) (radius off : R) (p : pt),
+       0 < radius ->
+       exists k : Z,
+         - (radius - off) <= px p - IZR k * (2 * radius) < 2 * radius - (radius - off) /\
+         den (rrepeat_x s radius off) p = den s (px p - IZR k * (2 * radius), py p, pz p).
+Proof. exact (@repeat_x_fold). Qed.
+Print Assumptions C16_repeat_x_fold.
+
+Theorem C16_revolve_y_sound :
+  forall (s : shape) (off : R) (p : pt),
+       den (revolve_y r_sc gen_revolve_other s off) p =
+       den s (sqrt ((px p + off) ^ 2 + pz p ^ 2) - off, py p, pz p).
+Proof. exact (@revolve_y_sound). Qed.
+Print Assumptions C16_revolve_y_sound.
+
+Theorem C16_revolve_y_rotation_invariant :
+  forall (s : shape) (off th : R) (p : pt),
+       (forall x y z z' : R, den s (x, y, z) = den s (x, y, z')) ->
+       den (revolve_y r_sc gen_revolve_other s off)
+         (- off + (cos th * (px p + off) - sin th * pz p), py p,
+          sin th * (px p + off) + cos th * pz p) = den (revolve_y r_sc gen_revolve_other s off) p.
+Proof. exact (@revolve_y_rotation_invariant). Qed.
+Print Assumptions C16_revolve_y_rotation_invariant.
+
+Theorem C16_extrude_z_inside :
+  forall (s : shape) (lo hi : R) (p : pt),
+       den (extrude_z r_sc s lo hi) p < 0 <-> den s (px p, py p, 0) < 0 /\ lo < pz p < hi.
+Proof. exact (@extrude_z_inside). Qed.
+Print Assumptions C16_extrude_z_inside.
+
+Theorem C16_loft_z_inside :
+  forall (a b : shape) (lo hi : R) (p : pt),
+       den (loft_z r_sc a b lo hi) p < 0 <-> loft_lerp a b lo hi p < 0 /\ lo < pz p < hi.
+Proof. exact (@loft_z_inside). Qed.
+Print Assumptions C16_loft_z_inside.
+
+Theorem C16_loft_z_at_lo :
+  forall (a b : shape) (lo hi : R) (p : pt),
+       lo < hi -> pz p = lo -> loft_lerp a b lo hi p = den a (px p, py p, 0).
+Proof. exact (@loft_z_at_lo). Qed.
+Print Assumptions C16_loft_z_at_lo.
+
+Theorem C16_loft_z_at_hi :
+  forall (a b : shape) (lo hi : R) (p : pt),
+       lo < hi -> pz p = hi -> loft_lerp a b lo hi p = den b (px p, py p, 0).
+Proof. exact (@loft_z_at_hi). Qed.
+Print Assumptions C16_loft_z_at_hi.
+
+Theorem C16_plane_xy_den :
+  forall p : pt, den (plane (axis_of r_sc gen_plane_xy_axis) 0) p = pz p.
+Proof. exact (@plane_xy_den). Qed.
+Print Assumptions C16_plane_xy_den.
+
+Theorem C16_plane_yz_den :
+  forall p : pt, den (plane (axis_of r_sc gen_plane_yz_axis) 0) p = px p.
+Proof. exact (@plane_yz_den). Qed.
+Print Assumptions C16_plane_yz_den.
+
+Theorem C16_plane_zx_den :
+  forall p : pt, den (plane (axis_of r_sc gen_plane_zx_axis) 0) p = py p.
+Proof. exact (@plane_zx_den). Qed.
+Print Assumptions C16_plane_zx_den.
+
+Theorem C16_transform_order :
+  forall p : pt,
+       den
+         (rotate r_sc (move r_sc EX (mkv (-1) 0 0)) (rodrigues (axis_z r_sc) (- (PI / 2)))
+            (mkv 0 0 0)) p = py p + 1.
+Proof. exact (@transform_order). Qed.
+Print Assumptions C16_transform_order.
